@@ -86,6 +86,9 @@ package core
 // The key of a service's GC safe point: the service id appended AS IT IS to "gc/safe_point/service/" (no path cleaning:
 // distinct ids have distinct keys, none of them is the GC safe point's own key).
 //@ pure svcKey(id string) = strcat(strcat(gocall("path.Join#0/3", "gc", "safe_point", "service"), "/"), id)
+// A key is used as it is only if path cleaning leaves it alone: the etcd-backed kv joins every key to its root path with
+// path.Join once more. cleanSvcId says that cleaning does not change the service's key.
+//@ pure cleanSvcId(id string) = gocall("path.Join#0/2", gocall("path.Join#0/3", "gc", "safe_point", "service"), id) == svcKey(id)
 //@ func (*Storage).SaveServiceGCSafePoint
 //@   props C15
 //@   requires ssp != nil
@@ -94,6 +97,7 @@ package core
 //@   ensures [refused-unchanged] (ssp.ServiceID == "" || (ssp.ServiceID == "gc_worker" && ssp.ExpiredAt != MaxInt64)) ==> result != nil && kvval == old(kvval) && kvhas == old(kvhas)
 //@   ensures [one-key] forall k :: k != svcKey(ssp.ServiceID) ==> kvval[k] == old(kvval[k]) && kvhas[k] == old(kvhas[k])
 //@   ensures [saved] result == nil ==> kvhas[svcKey(ssp.ServiceID)]
+//@   ensures [refused-unless-cleaning-leaves-the-key-alone] result == nil ==> cleanSvcId(ssp.ServiceID)
 //@   ensures [gcworker-entry-and-gc-safe-point-untouched-by-any-other-id] ssp.ServiceID != "gc_worker" ==> kvhas[svcKey("gc_worker")] == old(kvhas[svcKey("gc_worker")]) && kvval[svcKey("gc_worker")] == old(kvval[svcKey("gc_worker")]) && kvhas[gocall("path.Join#0/2", "gc", "safe_point")] == old(kvhas[gocall("path.Join#0/2", "gc", "safe_point")]) && kvval[gocall("path.Join#0/2", "gc", "safe_point")] == old(kvval[gocall("path.Join#0/2", "gc", "safe_point")])
 //@   modifies ghost kvhas, ghost kvval
 
@@ -102,6 +106,7 @@ package core
 //@   ensures [gcworker-kept] serviceID == "gc_worker" ==> result != nil && kvval == old(kvval) && kvhas == old(kvhas)
 //@   ensures [gcworker-entry-and-gc-safe-point-untouched-whatever-the-id] kvhas[svcKey("gc_worker")] == old(kvhas[svcKey("gc_worker")]) && kvval[svcKey("gc_worker")] == old(kvval[svcKey("gc_worker")]) && kvhas[gocall("path.Join#0/2", "gc", "safe_point")] == old(kvhas[gocall("path.Join#0/2", "gc", "safe_point")])
 //@   ensures [removed] result == nil ==> !kvhas[svcKey(serviceID)]
+//@   ensures [refused-unless-cleaning-leaves-the-key-alone] result == nil ==> cleanSvcId(serviceID)
 //@   ensures [one-key] forall k :: k != svcKey(serviceID) ==> kvval[k] == old(kvval[k]) && kvhas[k] == old(kvhas[k])
 //@   modifies ghost kvhas, ghost kvval
 
